@@ -110,7 +110,11 @@ Section WithUtf8.
 
   (* pub fn handle_peer_message(msg, con) -> Result<bool, Error>; the result carries what was
      written to the connection and the file system afterwards.  Sending is assumed to succeed. *)
+  Definition is_call (t : msgtype) : bool := match t with MCall => true | _ => false end.
+
   Definition handle_peer_message (e : env) (f : fs) (m : msg) : outcome (bool * list msg * fs) :=
+    (* if !matches!(msg.typ, MessageType::Call) { return Ok(false); } *)
+    if negb (is_call (m_typ m)) then Ok (false, [], f) else
     match dh_interface (m_dh m) with
     | Some interface =>
         if str_eqb interface peer_iface then
